@@ -259,7 +259,8 @@ def r5(ctx, facts):
         r.instance("validated-string-is-stored-string", bool(locs & vl) or 1 in locs, "the stored name must be the string that was validated", b.stmt_span(s))
     # the verifier rejects on length / charset: it has Err exits guarded by comparisons (structure only)
     vb = facts.one(r"^scylla::network::connection::VerifiedKeyspaceName::verify_keyspace_name_is_valid$")
-    errs = [s for bb in vb.live_blocks for s in vb.stmts(bb) if s[0] == "A" and s[2][0] == "agg" and s[2][1][0] == "adt" and s[2][1][1].endswith("BadKeyspaceName")]
+    errs = [s for xb in closure_family(facts, vb) for bb in xb.live_blocks for s in xb.stmts(bb)
+            if s[0] == "A" and s[2][0] == "agg" and s[2][1][0] == "adt" and s[2][1][1].endswith("BadKeyspaceName")]
     kinds = {s[2][1][2] for s in errs}
     r.instance("verifier-rejections", {"Empty", "TooLong", "IllegalCharacter"} <= kinds, "verify_keyspace_name_is_valid must reject empty / too long / illegal-character names; rejects %s" % sorted(kinds), vb.span)
     # USE statement formatted from as_str() only
